@@ -21,6 +21,7 @@ import (
 	"strings"
 	"testing"
 	"testing/synctest"
+	"time"
 
 	"github.com/modelcontextprotocol/go-sdk/internal/verifx"
 )
@@ -111,7 +112,7 @@ func c12Agreement(t *testing.T, cases *verifx.Cases) {
 									sig, msg = "c12 agreement panic-or-leak", fmt.Sprintf("%v [%s]", rec, desc)
 								}
 							}()
-							synctest.Test(t, func(t *testing.T) { sig, msg = c12AgreementCase(depth, args, desc) })
+							synctest.Test(t, func(t *testing.T) { sig, msg = c12AgreementCase(depth, args, desc, "listed") })
 						}()
 						if sig != "" {
 							cases.Violate(idx, sig, msg, 2)
@@ -123,9 +124,40 @@ func c12Agreement(t *testing.T, cases *verifx.Cases) {
 			}
 		}
 	}
+	// the same call when the client has not (or no longer) the tool's definition at hand
+	for _, knowledge := range []string{"never-listed", "list-invalidated"} {
+		for depth := 1; depth <= 2; depth++ {
+			for _, leaf := range []map[string]any{{"s": "plain"}, {"s": "plain", "p": "a"}, {"s": "plain", "p": "ü", "q": 7, "r": true}} {
+				idx, mine := cases.Next()
+				if !mine {
+					continue
+				}
+				args := c12Args(depth, leaf)
+				raw, _ := json.Marshal(args)
+				desc := fmt.Sprintf("depth=%d arguments=%s tool %s", depth, raw, knowledge)
+				var sig, msg string
+				func() {
+					defer func() {
+						if rec := recover(); rec != nil {
+							sig, msg = "c12 agreement panic-or-leak", fmt.Sprintf("%v [%s]", rec, desc)
+						}
+					}()
+					synctest.Test(t, func(t *testing.T) { sig, msg = c12AgreementCase(depth, args, desc, knowledge) })
+				}()
+				if sig != "" {
+					cases.Violate(idx, sig, msg, 2)
+					continue
+				}
+				cases.Record(idx, fmt.Sprintf("delivered depth=%d tool %s", depth, knowledge), 2, func() string { return desc })
+			}
+		}
+	}
 }
 
-func c12AgreementCase(depth int, args map[string]any, desc string) (sig, msg string) {
+// knowledge: how the client learned about the tool before calling it -- "listed" (a tools/list just
+// before), "never-listed" (CallTool is the first thing the session does) or "list-invalidated" (it
+// listed, then another tool was added and the tools/list_changed notification was handled).
+func c12AgreementCase(depth int, args map[string]any, desc string, knowledge string) (sig, msg string) {
 	ctx := context.Background()
 	var got []json.RawMessage
 	s := NewServer(&Implementation{Name: "srv", Version: "1"}, &ServerOptions{Logger: quietLogger})
@@ -144,9 +176,18 @@ func c12AgreementCase(depth int, args map[string]any, desc string) (sig, msg str
 	if v := cs.InitializeResult().ProtocolVersion; v != "2026-07-28" {
 		return "c12 agreement connect", fmt.Sprintf("negotiated %s, want 2026-07-28", v)
 	}
-	lr, err := cs.ListTools(ctx, nil)
-	if err != nil || len(lr.Tools) != 1 {
-		return "c12 agreement tool-not-listed", fmt.Sprintf("ListTools: %v %v [%s]", lr, err, desc)
+	if knowledge != "never-listed" {
+		lr, err := cs.ListTools(ctx, nil)
+		if err != nil || len(lr.Tools) != 1 {
+			return "c12 agreement tool-not-listed", fmt.Sprintf("ListTools: %v %v [%s]", lr, err, desc)
+		}
+	}
+	if knowledge == "list-invalidated" {
+		s.AddTool(&Tool{Name: "other", InputSchema: map[string]any{"type": "object"}}, func(context.Context, *CallToolRequest) (*CallToolResult, error) {
+			return &CallToolResult{}, nil
+		})
+		time.Sleep(time.Second)
+		synctest.Wait()
 	}
 	res, err := cs.CallTool(ctx, &CallToolParams{Name: "t", Arguments: args})
 	if err != nil || res.IsError {
@@ -164,6 +205,9 @@ func c12AgreementCase(depth int, args map[string]any, desc string) (sig, msg str
 		cls := "other"
 		if err != nil && strings.Contains(err.Error(), "eader") {
 			cls = "header-mismatch"
+		}
+		if knowledge != "listed" {
+			cls += " tool-" + knowledge
 		}
 		return "c12 agreement legitimate-call-rejected " + cls, fmt.Sprintf("a call with schema-valid arguments was rejected: %v %+v; headers sent: %v; wire problems: %v [%s]", err, res, hdrs, wire.bad, desc)
 	}
@@ -257,7 +301,7 @@ func c12ClientOps(stateless bool, op string) (obs, sig, msg string) {
 // ---------- (a) soundness
 
 type c12Req struct {
-	kind      string // stateless-modern, stateful-legacy, sse
+	kind      string // stateless-modern, stateful-legacy, stateful-no-session-ids, sse
 	method    string
 	target    string
 	host      string
@@ -492,6 +536,17 @@ func c12Setup(kind string) (*c12Endpoint, error) {
 				ss.Close()
 			}
 		}
+	case "stateful-no-session-ids":
+		// a stateful handler whose server suppresses session ids: every POST is served by an
+		// ephemeral session (a different code path from Stateless: true)
+		s.opts.GetSessionID = func() string { return "" }
+		e.handler = NewStreamableHTTPHandler(func(*http.Request) *Server { return s }, &StreamableHTTPOptions{Logger: quietLogger, MaxRequestBodyBytes: c12BodyLimit})
+		e.base = func() *c12Req {
+			return &c12Req{kind: kind, method: "POST", target: "/mcp", host: "localhost:80", localAddr: "127.0.0.1:80",
+				headers: [][2]string{{"Content-Type", "application/json"}, {"Accept", "application/json, text/event-stream"},
+					{"Mcp-Protocol-Version", "2025-06-18"}},
+				body: `{"jsonrpc":"2.0","id":1,"method":"tools/call","params":{"name":"t","arguments":` + args + `}}`}
+		}
 	case "sse":
 		h := NewSSEHandler(func(*http.Request) *Server { return s }, nil)
 		e.handler = h
@@ -641,7 +696,7 @@ func TestVerifC12(t *testing.T) {
 	res := env.NewResult()
 	sound := env.NewCases(res, "soundness-deviations")
 	dims := c12Dims()
-	for _, kind := range []string{"stateless-modern", "stateful-legacy", "sse"} {
+	for _, kind := range []string{"stateless-modern", "stateful-legacy", "stateful-no-session-ids", "sse"} {
 		type dv = [2]int
 		var singles []dv
 		for di, d := range dims {
